@@ -30,19 +30,42 @@ TRUSTED = [
     "modelled, not verified: zlib is an opaque pair (compress, decompress) with the single law "
     "decompress(compress(b)) = b (structure Rpyc.Wire.Zlib); the driver is fed the real zlib output",
     "modelled, not verified: the kernel's socket/pipe behaviour is replaced by scripts (harness/faults.py): every "
-    "answer recv/send/os.read/os.write can give is a script event (partial length, socket.timeout, OSError(errno), "
-    "end of stream); a script that runs out stands for a call that blocks forever",
+    "answer recv/send/os.read/os.write/poll/fileno/close can give is a script event (partial length, socket.timeout, "
+    "OSError(errno), end of stream, select error, refused descriptor, failing close); a script that runs out stands "
+    "for a call that blocks forever. Tie to the real kernel: transfers over a real socketpair / real os.pipe pairs "
+    "(harness/wire_kernel.py: small SO_SNDBUF/SO_RCVBUF/pipe size, capped random fragment sizes, partial writes, "
+    "non-blocking reader with real EAGAIN, peer close mid-frame, ECONNRESET, EPIPE at the writer) whose recorded "
+    "call traces are replayed as scripts through the model and must give the same packets, exception and closed state",
     "modelled, not verified: struct '!LB' packing = big-endian fixed-width fields (widths generated from "
     "FRAME_HEADER.format); the interpreter's mapping OSError(errno) -> subclass (BlockingIOError, TimeoutError = "
-    "socket.timeout) is read from the live interpreter into Gen.timeoutErrnos",
+    "socket.timeout) is read from the live interpreter into Gen.timeoutErrnos; select.error is OSError",
+    "modelled, not verified: a descriptor object whose close() raised is closed all the same (as CPython's socket "
+    "and file objects are): afterwards socket recv/send/fileno raise EBADF and file.fileno() raises ValueError",
 ]
 ASSUMPTIONS = [
     "payloads of 2**32 bytes or more (struct.error in FRAME_HEADER.pack) are excluded by the explicit guard `Fits` "
     "and not generated",
     "a stream subclass with MAX_IO_CHUNK < FRAME_HEADER.size (negative part1) is not modelled",
-    "PipeStream has no retry: a would-block/timeout reported by os.read on a pipe is fatal (EOFError + closed), so "
-    "'transient conditions' are benign on sockets only; this is the code's behaviour and is what the model says",
-    "thread-safety of a shared channel is C12/C13's subject; here one thread sends and one receives",
+    "PIPE + WOULD-BLOCK (deviation by the letter, see C05_pipe_wouldblock_counterexample): PipeStream.read has no "
+    "retry, so an EAGAIN/timeout reported by os.read on a pipe is fatal (EOFError + closed, packet lost). The claim "
+    "'whatever transient would-block or timeout conditions' is proved for sockets (C05_transients_socket) and, for "
+    "pipes, only for scripts of data events (C05_pipe_partial); safety (prefix, then EOFError + closed) holds for both. "
+    "A real pipe reports EAGAIN only if O_NONBLOCK is set on its read end by the application or through a shared open "
+    "file description; rpyc creates its pipes blocking and never sets it (real-pipe demonstration in the evidence)",
+    "'EOFError + closed' is claimed for failures met by read/write (recv/send). EXCLUDED: (a) a failure reported by "
+    "Stream.poll itself - a failing poll() call other than EINTR or a descriptor register() refuses is re-raised as "
+    "select_error with the stream left open; SocketStream.fileno re-raises a non-EBADF socket.error after closing "
+    "(OSError, closed) and maps only EBADF to EOFError (modelled: Rpyc.Wire.dPoll, theorem poll_failure_is_not_eof_closed). "
+    "On Linux sockets/pipes a dead or reset peer makes poll() answer 'readable' and the failure is then met by read "
+    "(kernel probes in the evidence); the poll-error paths need a descriptor the application itself invalidated. "
+    "(b) the descriptor's own close() raising inside the failure path of read/write/fileno: that OSError propagates "
+    "instead of EOFError and stream.closed stays False (SocketStream.close / PipeStream.close assign ClosedFile only "
+    "after the close() calls; modelled: Rpyc.Wire.dClose, theorem close_failure_is_not_eof_closed); a later read/write "
+    "on the socket then closes cleanly with EOFError, on a pipe it raises ValueError (fileno() of the closed file "
+    "object is not an EnvironmentError). In all these cases no packet is altered (duplex_recv_is_recvPacket)",
+    "thread-safety of a shared channel is C12/C13's subject; the duplex cases interleave calls of one thread, the "
+    "kernel runs use one writer thread and one reader thread on separate streams",
+    "TunneledSocketStream.close, Win32PipeStream and NamedPipeStream (platform-specific) are not modelled",
 ]
 EXPLANATION = (
     "Theorems (all scripts, packet lists and sizes unbounded): concat(sendWrites) = frame; read(n) yields exactly the "
@@ -50,7 +73,13 @@ EXPLANATION = (
     "split/coalescing, timeouts/EAGAIN anywhere) delivers exactly the packets sent; recvAll_prefix: under EVERY script "
     "and for ANY prefix of the sent stream only whole packets in order are returned, then EOFError+closed; writeAll / "
     "sendAll_prefix: the transport has accepted a prefix of the frames, all of them iff send returned, else "
-    "EOFError+closed; transfer_exact / transfer_safe: both ends composed. zlib enters only through its round-trip law.")
+    "EOFError+closed; transfer_exact / transfer_safe: both ends composed. zlib enters only through its round-trip law. "
+    "Duplex layer (one stream, send/recv/poll/close in any order, failing close()): every packet recv returns is the "
+    "one recvPacket returns (duplex_recv_is_recvPacket); send and poll never touch the incoming stream; poll's "
+    "outcomes are classified and the two places where a failure is NOT 'EOFError + closed' are exhibited "
+    "(poll_failure_is_not_eof_closed, close_failure_is_not_eof_closed). The would-block clause is proved for sockets "
+    "and refuted by the letter for pipes (C05_pipe_wouldblock_counterexample, C05_pipe_partial). NOT proved: a "
+    "whole-run invariant for arbitrary duplex call sequences (the per-call lemmas are what is proved).")
 
 
 def mods():
@@ -872,9 +901,17 @@ def correspondence(ctx):
         "after exactly k accepted bytes on the sending side, k = every offset (short streams; all streams in thorough) "
         "or 64 sampled offsets incl. all frame-boundary neighbours; S5: stream.read / stream.write call sequences "
         "continuing after EOFError; S6: frames with a wrong trailing byte, odd flag bytes, flag/payload mismatch, length "
-        "beyond the data. Non-trivial = moves at least one packet or one read/write call; distinct = distinct (group, "
+        "beyond the data. S7 (duplex): ONE real stream and channel used in both directions with send / recv / poll / "
+        "close / raw read / raw write calls in random order, continuing after every exception, under healthy and "
+        "failing recv/send scripts, poll scripts (ready, idle, EINTR, select error, refused descriptor, fileno raising "
+        "ECONNRESET / EBADF), sock.shutdown raising, and the descriptor's own close() raising once (sock.close / "
+        "incoming.close / outgoing.close); compared: every call's result or exception class, final closed, events left "
+        "of all three scripts, wire left, bytes accepted. S8 (kernel): transfers over a real socketpair / real os.pipe "
+        "pairs through a size-capping, logging shim (small buffers, non-blocking reader, cut mid-frame, ECONNRESET, "
+        "reader dying under the writer); the recorded traces are replayed through the model. Non-trivial = moves "
+        "at least one packet or one read/write/poll call; distinct = distinct (group, "
         "fault or script family, stream kinds, sender compression, packet size classes, chunk size, both outcomes, "
-        "number of packets received) resp. (call-result sequence, closed) for S5/S6.")
+        "number of packets received) resp. (call sequence, result sequence, closed) for S5-S7.")
     r = Rng(ctx.seed).fork("c05")
     batch = Batch(c)
     seen_writes = set()
